@@ -1,4 +1,4 @@
-use crate::{reader::AseReader, tilemap::TileBitmaskHeader, Result};
+use crate::{reader::AseReader, tilemap::TileBitmaskHeader, AsepriteParseError, Result};
 use std::{io::Read, ops::Index};
 
 #[derive(Debug, Clone, Copy, PartialEq, Eq, PartialOrd, Ord, Hash)]
@@ -58,7 +58,12 @@ impl Tiles {
         header: &TileBitmaskHeader,
     ) -> Result<Self> {
         // Only 32-bit tiles supported for now
-        let expected_output_size = 4 * expected_tile_count;
+        let expected_output_size = expected_tile_count.checked_mul(4).ok_or_else(|| {
+            AsepriteParseError::InvalidInput(format!(
+                "Tilemap too large: {} tiles",
+                expected_tile_count
+            ))
+        })?;
         let bytes = reader.unzip(expected_output_size)?;
         let tiles: Result<Vec<Tile>> = bytes
             .chunks_exact(4)
